@@ -52,50 +52,118 @@ theorem ev_fetchOk_top (k : Nat) (r : Reply) {s : St} (hs : Top cfg s) (c : Bool
   · simp only []
     split
     · rename_i hmb
-      simp only [] at hmb
       cases htl : r.tail <;> top_fields hs
     · unfold fetchBody
       have h4 : Top cfg { ({ s with out := .ev (.fetchOk k r) :: s.out } : St) with retryDelay := cfg.retryInit, attempts := 1, requestD := .none } := by
         cases htl : r.tail <;> top_fields hs
       refine h4.of_rel (fetchTail_a hin false r h4.1 rfl hpk (fun hnr => ?_))
-      simp only [atm, runR_cons, C14.atStep]
       cases htl : r.tail with
       | raise kd t => exact absurd htl (hnr kd t)
-      | done => rfl
-      | small => rfl
+      | done => simp [atm, runR_cons, C14.atStep, htl]
+      | small => simp [atm, runR_cons, C14.atStep, htl]
+
+/-- `_handle_offset_error` after `self._request_d = None`, for a running consumer that is not stopping and has no refetch referenced -/
+theorem offsetErrorTail_eq (f : Fail) (t : St) (h1 : t.startD ≠ .none) (h2 : t.stopping = false) (h3 : t.retryCall = .none) :
+    offsetErrorTail cfg f t =
+      if (cfg.maxAttempts != 0 && decide (t.attempts ≥ cfg.maxAttempts)) = true then startErrback f t
+      else if t.shuttingDown = true then t
+      else { emit (.setTimer .retry t.retryDelay) { t with retryDelay := nextDelay cfg.retryMax t.retryDelay } with
+               attempts := t.attempts + 1, retryCall := .pending (t.now + t.retryDelay) } := by
+  have h1' : (t.startD == StartD.none) = false := by simpa using h1
+  unfold offsetErrorTail retryFetch
+  simp only [h1', h2, h3, Bool.false_eq_true, if_false, Bool.false_or, Bool.or_false, Option.getD_none, Option.isNone_none, if_true]
 
 /-- a failed offset look-up at top level: the retry is scheduled, or the attempt limit is reached and the failure reported -/
 theorem ev_offsetFail_top (e : Ev) (k : Nat) (ek : ErrKind) (tag : Nat) (he : e = .offsetErr k ek tag ∨ e = .offsetFetchErr k ek tag)
-    {s : St} (hs : Top cfg s) (kind : ReqKind) (c : Bool) (hreq : s.requestD = .pending k kind c) :
+    {s : St} (hs : Top cfg s) (hcr : s.crashed = false) (kind : ReqKind) (c : Bool) (hreq : s.requestD = .pending k kind c) :
     Top cfg (handleOffsetError cfg (.ext ek tag) { s with out := .ev e :: s.out }) := by
   have hrun := hs.1.reqRun k kind c hreq
   have hpk := pend_pk hs.1 hreq
   have hrc := hs.1.pr k kind c hreq
   have hl := hs.1.live1 k kind c hreq
   have hst := hs.2.1
+  have hsd : s.startD = .pending ∨ s.startD = .called := by
+    cases h : s.startD
+    · exact absurd h hrun
+    · exact Or.inl rfl
+    · exact Or.inr rfl
   simp only [atm] at hl
-  unfold handleOffsetError offsetErrorTail retryFetch startErrback emit
+  unfold handleOffsetError
+  rw [offsetErrorTail_eq (cfg := cfg) _ _ (by exact hrun) (by exact hst) (by exact hrc)]
   rcases he with rfl | rfl
-  all_goals
-    simp only [hrc, hst, Option.getD_none, Option.isNone_none, if_true, Bool.false_or, Bool.false_eq_true, if_false]
-    repeat' split
-    all_goals top_fields hs
+  · split
+    · unfold startErrback emit
+      split <;> top_fields hs
+    · split
+      · top_fields hs
+      · unfold emit; top_fields hs
+  · split
+    · unfold startErrback emit
+      split <;> top_fields hs
+    · split
+      · top_fields hs
+      · unfold emit; top_fields hs
+
+/-- `_handle_fetch_error` after `self._request_d = None`, likewise -/
+theorem fetchErrorTail_eq (f : Fail) (t : St) (fo : Int) (h1 : t.startD ≠ .none) (h2 : t.stopping = false) (h3 : t.retryCall = .none)
+    (hfo : fo = if f.isOutOfRange then cfg.reset.getD t.fetchOffset else t.fetchOffset) :
+    fetchErrorTail cfg f t =
+      if (f.isOutOfRange && cfg.reset.isNone) = true then startErrback f t
+      else if (cfg.maxAttempts != 0 && decide (t.attempts ≥ cfg.maxAttempts)) = true then startErrback f { t with fetchOffset := fo }
+      else if t.shuttingDown = true then { t with fetchOffset := fo }
+      else { emit (.setTimer .retry t.retryDelay) { t with fetchOffset := fo, retryDelay := nextDelay cfg.retryMax t.retryDelay } with
+               attempts := t.attempts + 1, retryCall := .pending (t.now + t.retryDelay) } := by
+  have h1' : (t.startD == StartD.none) = false := by simpa using h1
+  subst hfo
+  unfold fetchErrorTail retryFetch
+  simp only [h1', Bool.false_eq_true, if_false]
+  split
+  · rfl
+  · cases f.isOutOfRange <;>
+      simp only [h1', h2, h3, Bool.false_eq_true, if_false, Bool.false_or, Bool.or_false, Option.getD_none, Option.isNone_none, if_true] <;>
+      (by_cases hA : (cfg.maxAttempts != 0 && decide (t.attempts ≥ cfg.maxAttempts)) = true
+       · simp only [hA, if_true]
+         first | done | rfl | (cases t; simp_all)
+       · by_cases hB : t.shuttingDown = true
+         · simp only [hA, hB, if_true, Bool.false_eq_true, if_false]
+           first | done | rfl | (cases t; simp_all)
+         · simp only [hA, hB, Bool.false_eq_true, if_false])
 
 /-- a failed fetch request at top level -/
 theorem ev_fetchErr_top (k : Nat) (ek : ErrKind) (tag : Nat)
-    {s : St} (hs : Top cfg s) (c : Bool) (hreq : s.requestD = .pending k .fetch c) :
+    {s : St} (hs : Top cfg s) (hcr : s.crashed = false) (c : Bool) (hreq : s.requestD = .pending k .fetch c) :
     Top cfg (handleFetchError cfg (.ext ek tag) { s with out := .ev (.fetchErr k ek tag) :: s.out }) := by
   have hrun := hs.1.reqRun k .fetch c hreq
   have hpk := pend_pk hs.1 hreq
   have hrc := hs.1.pr k .fetch c hreq
   have hl := hs.1.live1 k .fetch c hreq
   have hst := hs.2.1
+  have hsd : s.startD = .pending ∨ s.startD = .called := by
+    cases h : s.startD
+    · exact absurd h hrun
+    · exact Or.inl rfl
+    · exact Or.inr rfl
   simp only [atm] at hl
-  unfold handleFetchError fetchErrorTail retryFetch startErrback emit
-  simp only [hrc, hst, Option.getD_none, Option.isNone_none, if_true, Bool.false_or, Bool.false_eq_true, if_false]
-  cases ek <;> simp only [Fail.isOutOfRange, Bool.true_and, Bool.false_and, Bool.false_eq_true, if_false, if_true] <;>
-    repeat' split
-  all_goals top_fields hs
+  unfold handleFetchError
+  have key := fetchErrorTail_eq (cfg := cfg) (Fail.ext ek tag)
+    ({ ({ s with out := .ev (.fetchErr k ek tag) :: s.out } : St) with requestD := ReqD.none })
+    (if (Fail.ext ek tag).isOutOfRange then cfg.reset.getD s.fetchOffset else s.fetchOffset) hrun hst hrc rfl
+  rw [key]
+  generalize hfo : (if (Fail.ext ek tag).isOutOfRange then cfg.reset.getD s.fetchOffset else s.fetchOffset) = fo
+  have hoor : (Fail.ext ek tag).isOutOfRange = (ek == .outOfRange) := by cases ek <;> rfl
+  rw [hoor]
+  simp only []
+  split
+  · rename_i hfat
+    unfold startErrback emit
+    split <;> top_fields hs
+  · rename_i hfat
+    split
+    · unfold startErrback emit
+      split <;> top_fields hs
+    · split
+      · top_fields hs
+      · unfold emit; top_fields hs
 
 theorem ev_offsetOk_top (k : Nat) (off : Int) {s : St} (hs : Top cfg s) (c : Bool)
     (hreq : s.requestD = .pending k .offsets c) :
@@ -166,7 +234,7 @@ theorem pre_6 (k : Nat) (ek : ErrKind) (tag : Nat) {s : St} (hs : Top cfg s) :
     Top cfg ({ s with out := .ev (.commitErr k ek tag) :: s.out, commitReq := none } : St) := by
   top_fields hs
 
-theorem pre_7 {s : St} (hs : Top cfg s) :
+theorem pre_7 {s : St} (hs : Top cfg s) (due : Rat) (hdue : s.retryCall = .pending due) :
     Top cfg ({ s with out := .ev .retryFire :: s.out, retryCall := .dead } : St) := by
   top_fields hs
 
@@ -187,7 +255,7 @@ theorem pre_11 (ek : ErrKind) (tag : Nat) {s : St} (hs : Top cfg s) :
       (atm cfg ({ s with out := .ev (.procErr ek tag) :: s.out } : St)).inErr = false := by
   exact ⟨by top_fields hs, by simp [atm, runR_cons, C14.atStep]⟩
 
-theorem stepCore_top (e : Ev) {s s' : St} (hs : Top cfg s) (ht : A.TopF s)
+theorem stepCore_top (e : Ev) {s s' : St} (hs : Top cfg s) (ht : A.TopF s) (hcr : s.crashed = false)
     (h : stepCore cfg { s with out := .ev e :: s.out } e = some s') : Top cfg s' := by
   have hin := opsN_a cfg cfg.depth
   cases e with
@@ -218,7 +286,7 @@ theorem stepCore_top (e : Ev) {s s' : St} (hs : Top cfg s) (ht : A.TopF s)
     · rename_i hq
       obtain ⟨c, hreq⟩ := A.req_of_guard' hq
       simp only [Option.some.injEq] at h; subst h
-      exact ev_fetchErr_top k ek tag hs c hreq
+      exact ev_fetchErr_top k ek tag hs hcr c hreq
     · cases h
   | offsetOk k off =>
     simp only [stepCore] at h
@@ -234,7 +302,7 @@ theorem stepCore_top (e : Ev) {s s' : St} (hs : Top cfg s) (ht : A.TopF s)
     · rename_i hq
       obtain ⟨c, hreq⟩ := A.req_of_guard' hq
       simp only [Option.some.injEq] at h; subst h
-      exact ev_offsetFail_top _ k ek tag (Or.inl rfl) hs _ c hreq
+      exact ev_offsetFail_top _ k ek tag (Or.inl rfl) hs hcr _ c hreq
     · cases h
   | offsetFetchOk k off =>
     simp only [stepCore] at h
@@ -250,7 +318,7 @@ theorem stepCore_top (e : Ev) {s s' : St} (hs : Top cfg s) (ht : A.TopF s)
     · rename_i hq
       obtain ⟨c, hreq⟩ := A.req_of_guard' hq
       simp only [Option.some.injEq] at h; subst h
-      exact ev_offsetFail_top _ k ek tag (Or.inr rfl) hs _ c hreq
+      exact ev_offsetFail_top _ k ek tag (Or.inr rfl) hs hcr _ c hreq
     · cases h
   | commitOk k =>
     simp only [stepCore] at h
@@ -296,7 +364,7 @@ theorem stepCore_top (e : Ev) {s s' : St} (hs : Top cfg s) (ht : A.TopF s)
       · simp only [Option.some.injEq] at h; subst h
         have hrun := ht.retryRun due hdue
         have hl := hs.1.live2 due hdue
-        have hq := pre_7 (cfg := cfg) hs
+        have hq := pre_7 (cfg := cfg) hs due hdue
         refine doFetch_top hq (by simpa using hrun) ?_
         simp only [atm, runR_cons, C14.atStep] at hl ⊢
         exact hl
@@ -351,10 +419,12 @@ theorem step_top (e : Ev) {s : St} (hs : Top cfg s) (ht : A.TopF s) : Top cfg (s
   unfold step
   split
   · exact rej_top e hs
-  · split
+  · rename_i hcr
+    have hcr' : s.crashed = false := by simpa using hcr
+    split
     · exact rej_top e hs
     · rename_i s' h
-      have hq := stepCore_top e hs ht h
+      have hq := stepCore_top e hs ht hcr' h
       split
       · exact hq
       · exact probe_top hq
